@@ -40,6 +40,8 @@ type Solver struct {
 	Dump      io.Writer
 	sinceReset int
 	argv      []string
+	nameIDs   map[string]int
+	stack     []*Term
 }
 
 func solverArgv(name string) []string {
@@ -80,7 +82,8 @@ func (s *Solver) start() error {
 	s.out = bufio.NewReaderSize(out, 1<<16)
 	s.defined = map[int]bool{}
 	s.sinceReset = 0
-	s.send("(set-option :produce-models true)\n")
+	s.stack = nil
+	s.send("(set-option :produce-models true)\n(set-option :global-declarations true)\n")
 	if s.Name == "cvc5" {
 		s.send("(set-logic ALL)\n")
 		s.send(fmt.Sprintf("(set-option :tlimit-per %d)\n", s.TimeoutMs))
@@ -178,7 +181,7 @@ func (s *Solver) emitDef(t *Term, sb *strings.Builder) {
 		fmt.Fprintf(sb, "(declare-fun |%s| () %s)\n", t.Name, sortStr(t.W))
 		return
 	case OpApp:
-		key := -1 - len(t.Args)*1000 - hashName(t.Name)
+		key := -1 - len(t.Args)*1000 - s.hashName(t.Name)
 		if !s.defined[key] {
 			s.defined[key] = true
 			fmt.Fprintf(sb, "(declare-fun |%s| (", t.Name)
@@ -216,14 +219,15 @@ func (s *Solver) emitDef(t *Term, sb *strings.Builder) {
 	sb.WriteString(")\n")
 }
 
-var nameIDs = map[string]int{}
-
-func hashName(n string) int {
-	if id, ok := nameIDs[n]; ok {
+func (s *Solver) hashName(n string) int {
+	if s.nameIDs == nil {
+		s.nameIDs = map[string]int{}
+	}
+	if id, ok := s.nameIDs[n]; ok {
 		return id
 	}
-	id := len(nameIDs) + 1
-	nameIDs[n] = id
+	id := len(s.nameIDs) + 1
+	s.nameIDs[n] = id
 	return id * 1000000
 }
 
@@ -265,25 +269,34 @@ func (s *Solver) readSexp() (string, error) {
 	}
 }
 
-// Check decides satisfiability of the conjunction of asserts. When sat and
-// wantModel, the model of all leaves is returned.
-func (s *Solver) Check(asserts []*Term, wantModel bool) (Result, *Model) {
+// Check decides satisfiability of pc ∧ extra. The path condition is kept on the
+// solver's assertion stack (one push level per conjunct) and shared between
+// consecutive queries with a common prefix.
+func (s *Solver) Check(pc []*Term, extra *Term, wantModel bool) (Result, *Model) {
 	start := time.Now()
 	defer func() { s.Time += time.Since(start) }()
 	s.Queries++
 	s.sinceReset++
-	if s.sinceReset > 4000 {
+	if s.sinceReset > 20000 {
 		s.restart()
 	}
 	var sb strings.Builder
-	for _, a := range asserts {
+	// common prefix with the current assertion stack
+	k := 0
+	for k < len(s.stack) && k < len(pc) && s.stack[k] == pc[k] {
+		k++
+	}
+	if n := len(s.stack) - k; n > 0 {
+		fmt.Fprintf(&sb, "(pop %d)\n", n)
+		s.stack = s.stack[:k]
+	}
+	for _, a := range pc[k:] {
 		s.define(a, &sb)
+		fmt.Fprintf(&sb, "(push 1)\n(assert %s)\n", s.ref(a))
+		s.stack = append(s.stack, a)
 	}
-	sb.WriteString("(push 1)\n")
-	for _, a := range asserts {
-		fmt.Fprintf(&sb, "(assert %s)\n", s.ref(a))
-	}
-	sb.WriteString("(check-sat)\n")
+	s.define(extra, &sb)
+	fmt.Fprintf(&sb, "(push 1)\n(assert %s)\n(check-sat)\n", s.ref(extra))
 	s.send(sb.String())
 	var ans string
 	for {
@@ -316,7 +329,8 @@ func (s *Solver) Check(asserts []*Term, wantModel bool) (Result, *Model) {
 	}
 	var model *Model
 	if res == Sat && wantModel {
-		model = s.getModel(asserts)
+		all := append(append([]*Term{}, pc...), extra)
+		model = s.getModel(all)
 	}
 	s.send("(pop 1)\n")
 	switch res {
